@@ -65,7 +65,7 @@ pub fn compress_oracle(dir: &std::path::Path, data: &[u8]) -> Vec<u8> {
     let mut w = Writer::<0>::create(&p, size, 0).expect("oracle create");
     w.enable_compression();
     let (_, len) = w.append(&[], data).expect("oracle append");
-    w.sync().expect("oracle sync");
+    w.flush_writer().expect("oracle flush");
     let mut buf = vec![0u8; len];
     w.file().read_exact_at(&mut buf, 0).expect("oracle read");
     drop(w);
